@@ -63,9 +63,9 @@ PROPS['C16'] = {
     'level_note': 'SHA-2 uninterpreted; hash_by_alg, vec_compare, to_vec, ByteBuf assumed by contract; extraction rules X2 (step_by) and X4 (alpha-renaming) applied; from_leaves and file-level BMFF callers outside the unit.',
     'technique': 'Verus contracts (requires/ensures/loop invariants/decreases) + inductive lemmas on mechanically extracted real functions',
     'parts': [V('verus:merkle', 'merkle'),
-              B('native:merkle_replay', 'sdk', [{'name': 'c16_generated_proofs_verify_natively'}], tier='thorough',
-                functions=[('sdk/src/utils/merkle.rs', 'from_leaves')],
-                bounds='thorough tier only: leaf counts 1..=300 x every row x every index on the real code (replay driver / differential check of the assumed callee contracts)')],
+              B('native:merkle_replay', 'sdk', [{'name': 'c16_generated_proofs_verify_natively', 'tier': 'quick'}],
+                functions=[('sdk/src/utils/merkle.rs', 'from_leaves'), ('sdk/src/assertions/bmff_hash.rs', 'check_merkle_tree')],
+                bounds='leaf counts 1..=40 (thorough: 300) x every row x every index on the real code (replay driver / differential check of the assumed callee contracts; also decides the property on concrete trees when a changed body no longer fits the unit)')],
     'trusted_base': TB_VERUS + [
         'SHA-2 is an uninterpreted function H(alg, bytes); leaf soundness additionally assumes H injective',
         'hash_by_alg(alg, data, None) == H(alg, data) (external_body); concat_and_hash is verified on its real body',
@@ -106,16 +106,16 @@ PROPS['C14'] = {
 PROPS['C15'] = {
     'level': 'proof',
     'level_text': 'Deductive proof (Verus/Z3) on the real body of Builder::sign_embeddable with every callee opaque and Store::sign_manifest returning a vector of '
-                  'ARBITRARY length: whenever a placeholder was committed and the call returns Ok, the result has exactly the composed length of the placeholder. '
+                  'ARBITRARY length: whenever a placeholder was committed and the call returns Ok, the result has exactly the composed length of the placeholder; and on the real body of Builder::placeholder: the length recorded for sign_embeddable is exactly the raw length of the placeholder returned by this call (whatever was recorded before). '
                   'Quantifies over all signers/manifests/dynamic assertions, which tests cannot.',
     'level_note': 'get_composed_manifest length is a function of (raw length, format) (assumed); that the placeholder is large enough in the first place and that the patched asset reads back Valid are not covered.',
     'technique': TECH_V,
     'parts': [V('verus:embeddable', 'embeddable'),
-              B('native:sign_embeddable_api', 'sdk', [{'name': 'c15_sign_embeddable_size_contract', 'tier': 'quick'}], functions=[('sdk/src/builder.rs', 'sign_embeddable'), ('sdk/src/builder.rs', 'placeholder')],
-                bounds='2 (thorough 4) formats x 2 definitions x 1..=14 exclusion ranges x 3 base offsets through the public API (replay driver for the Verus obligation)')],
+              B('native:sign_embeddable_api', 'sdk', [{'name': 'c15_sign_embeddable_size_contract', 'tier': 'quick'}, {'name': 'c15_placeholder_reuse_sequences', 'tier': 'quick'}], functions=[('sdk/src/builder.rs', 'sign_embeddable'), ('sdk/src/builder.rs', 'placeholder')],
+                bounds='2 (thorough 4) formats x 2 definitions x 1..=14 exclusion ranges x 3 base offsets through the public API (replay driver for the Verus obligation); 216 sequences of 2-3 placeholder/sign rounds on one builder')],
     'trusted_base': TB_VERUS + ['Store::get_composed_manifest(b, f) returns composed_len(|b|, f) bytes', 'Vec::resize (vstd spec)'],
     'rule': 'obligation = one Verus function-level query over real text extracted from /repo on this run',
-    'not_covered': ['placeholder() sizing', 'end-to-end: the patched asset reads back valid', 'sign_data_hashed_embeddable / sign_box_hashed_embeddable (Store-level)'],
+    'not_covered': ['that the placeholder is large enough for the signed manifest (signing then fails, which the statement allows)', 'end-to-end: the patched asset reads back valid', 'sign_data_hashed_embeddable / sign_box_hashed_embeddable (Store-level)'],
 }
 
 PROPS['C25'] = {
@@ -126,9 +126,10 @@ PROPS['C25'] = {
     'level_note': 'parse_to_value, merge_json, set_at_path, serde_json::{to_value,from_value}, validate opaque; map_err closures replaced by opaque mappers (declared subst rules); thread-local SETTINGS modelled as a cell with get_clone/set.',
     'technique': TECH_V + '; effect-guard precondition on the thread-local write',
     'parts': [V('verus:settings', 'settings'),
-              B('native:merge_and_path_laws', 'sdk', [{'name': 'c25_merge_and_path_laws_small_json_trees', 'tier': 'quick'}, {'name': 'c25_settings_path_updates_do_not_depend_on_history', 'tier': 'quick'}],
-                functions=[('sdk/src/settings/mod.rs', 'merge_json_depth'), ('sdk/src/settings/mod.rs', 'set_at_path'), ('sdk/src/settings/mod.rs', 'get_at_path'), ('sdk/src/settings/mod.rs', 'parse_to_value')],
-                bounds='JSON trees of depth <= 2 over keys {a,b} and 6 leaves (3191 trees); 8 paths; 7 real settings paths with 2..4 values each')],
+              B('native:merge_and_path_laws', 'sdk', [{'name': 'c25_merge_and_path_laws_small_json_trees', 'tier': 'quick'}, {'name': 'c25_settings_path_updates_do_not_depend_on_history', 'tier': 'quick'},
+                                                      {'name': 'c25_failed_updates_leave_settings_unchanged', 'tier': 'quick'}],
+                functions=[('sdk/src/settings/mod.rs', 'update_from_str'), ('sdk/src/settings/mod.rs', 'set_value'), ('sdk/src/settings/mod.rs', 'merge_json_depth'), ('sdk/src/settings/mod.rs', 'set_at_path'), ('sdk/src/settings/mod.rs', 'get_at_path'), ('sdk/src/settings/mod.rs', 'parse_to_value')],
+                bounds='JSON trees of depth <= 2 over keys {a,b} and 6 leaves (3191 trees); 8 paths; 7 real settings paths with 2..4 values each; atomic failure: 3 starting instances x 12 failing documents x 5 failing path updates')],
     'trusted_base': TB_VERUS + ['with_string/with_value take &self (rustc-enforced immutability)', 'Value::clone preserves decodability'],
     'rule': 'obligation = one Verus function-level query over real text extracted from /repo on this run',
     'not_covered': ['merge / path / JSON == TOML clauses beyond the bounded native part (serde_json::Value recursion is outside Verus and intractable in CBMC)', 'the full settings schema with invalid types and unknown keys'],
@@ -142,13 +143,13 @@ PROPS['C19'] = {
     'level_note': 'std HashSet<String> assumed to obey vstd key model; Claim/Store opaque; get_claim returns a claim whose label is in the (finite) store.',
     'technique': TECH_V + '; termination by a set-cardinality measure',
     'parts': [V('verus:binding_search', 'binding_search'),
-              B('native:ingredient_graphs', 'sdk', [{'name': 'c19_referenced_manifest_walk_all_small_graphs', 'tier': 'quick'}],
-                functions=[('sdk/src/store.rs', 'get_claim_referenced_manifests_impl')],
-                bounds='every directed ingredient graph on 1..=3 manifests (+ dangling reference), every 7th (thorough: all) of the 65536 graphs on 4 manifests, one over-deep chain')],
+              B('native:ingredient_graphs', 'sdk', [{'name': 'c19_referenced_manifest_walk_all_small_graphs', 'tier': 'quick'}, {'name': 'c19_ingredient_walk_linear_in_references', 'tier': 'quick'}],
+                functions=[('sdk/src/store.rs', 'get_claim_referenced_manifests_impl'), ('sdk/src/store.rs', 'ingredient_checks')],
+                bounds='every directed ingredient graph on 1..=3 manifests (+ dangling reference), every 7th (thorough: all) of the 65536 graphs on 4 manifests, one over-deep chain; validation walk: every signed ladder of 2..=5 (6) manifests with right / wrong reference hashes, checkpoints counted against the number of ingredient assertions in the store')],
     'trusted_base': TB_VERUS + ['vstd HashSet model for String keys', 'String determined by its characters', 'Store::get_claim(l) returns a claim stored in the store'],
     'rule': 'obligation = one Verus function-level query over real text extracted from /repo on this run',
-    'not_covered': ['ingredient_checks (entry API, log_item!, &mut iteration: outside Verus); get_claim_referenced_manifests_impl only by the bounded native part',
-                    '"never reports a cyclic, dangling or over-deep graph as Valid"', 'polynomial running time'],
+    'not_covered': ['ingredient_checks and get_claim_referenced_manifests_impl (entry API, log_item!, &mut iteration: outside Verus) only by the bounded native parts',
+                    '"never reports a cyclic, dangling or over-deep graph as Valid"', 'running time beyond the linear checkpoint bound on ladders of <= 6 manifests'],
 }
 
 PROPS['C28'] = {
@@ -199,9 +200,10 @@ PROPS['C26'] = {
     'level_text': 'Complete Kani harness on the real RestrictedResolver::http_resolve with is_uri_allowed replaced by an arbitrary Boolean and a counting inner resolver: '
                   'the inner resolver is called exactly once iff (no allow-list or the URI is allowed), otherwise never, and the error is UriDisallowed. '
                   'Pattern matching (is_uri_allowed / HostPattern) is a bounded-exhaustive stand-in, not counted as proved.',
-    'level_note': 'is_uri_allowed stubbed in the enforcement proof; http::Uri is intractable in CBMC so matching is checked natively over a small alphabet; resolver stacking in Context::build_default_*_resolver not verified.',
-    'technique': TECH_K + ' (enforcement: complete); ' + TECH_B + ' (host pattern matching)',
+    'level_note': 'is_uri_allowed stubbed in the enforcement proof; http::Uri is intractable in CBMC so matching is checked natively over a small alphabet. Resolver stacking: Verus on the real bodies of Context::build_default_sync_resolver / build_default_async_resolver and the three constructors they call, over a ghost shape of the stack: with an allow-list configured the allow-list layer has no redirect follower beneath it, so every hop reaching the client has passed it (Arc::new + unsized coercion replaced by an opaque shape-preserving function: declared subst).',
+    'technique': TECH_K + ' (enforcement: complete); ' + TECH_V + ' (stack shape built from settings); ' + TECH_B + ' (host pattern matching)',
     'parts': [
+        V('verus:resolver_stack', 'resolver_stack'),
         K('kani:allow_list_enforced', 'sdk', [H('c26_allow_list_enforced')], timeout=900,
           functions=[('sdk/src/http/restricted.rs', 'http_resolve', r'impl<T: SyncHttpResolver> SyncHttpResolver for RestrictedResolver<T> \{')],
           stubs=['is_uri_allowed -> arbitrary Boolean', 'sanitize_for_log -> empty string']),
@@ -212,7 +214,7 @@ PROPS['C26'] = {
     ],
     'trusted_base': TB_KANI,
     'rule': 'proof obligation = one complete Kani harness (all CBMC checks incl. safety checks SUCCESS, covers SATISFIED)',
-    'not_covered': ['async resolver stack (build_default_async_resolver; same text)', 'custom resolvers supplied by the caller'],
+    'not_covered': ['custom resolvers supplied by the caller', 'the async RestrictedResolver / RedirectResolver impls (same text as the sync ones)'],
 }
 
 
@@ -241,11 +243,12 @@ PROPS['C35'] = {
     'parts': [K('kani:sniff_piece_sizes', 'sdk', [H('c35_sniff_independent_2_short_reads', 'bounded', '<= 2 short reads of arbitrary size, then full reads; 16 symbolic bytes'),
                                                   H('c35_sniff_independent_3_short_reads', 'bounded', '<= 3 short reads of arbitrary size, then full reads; 16 symbolic bytes', tier='thorough')],
                 kind='bounded', timeout=1500, functions=[('sdk/src/jumbf_io.rs', 'container_from_stream')]),
-              B('native:short_reads_and_faults', 'sdk', [{'name': 'c35_short_reads_and_injected_faults', 'tier': 'quick'}, {'name': 'c35_short_reads_signed_assets_all_formats', 'tier': 'quick'}], functions=[('sdk/src/reader.rs', 'with_stream')],
-                bounds='reads of 6 fixtures x piece sizes {1,2,3,7,16,1000}; the stream breaking at every operation index (quick: all below 400, then every 13th)')],
+              B('native:short_reads_and_faults', 'sdk', [{'name': 'c35_short_reads_and_injected_faults', 'tier': 'quick'}, {'name': 'c35_short_reads_signed_assets_all_formats', 'tier': 'quick'},
+                                                         {'name': 'c35_sign_with_transient_source_faults', 'tier': 'quick'}], functions=[('sdk/src/reader.rs', 'with_stream'), ('sdk/src/builder.rs', 'save_to_stream')],
+                bounds='reads of 6 fixtures x piece sizes {1,2,3,7,16,1000}; the stream breaking at every operation index (quick: all below 400, then every 13th); signed assets of 12 formats; signing 12 formats from a source that fails once at up to 160 (600) operation indices')],
     'trusted_base': TB_KANI,
     'rule': 'evaluations = CBMC checks decided in bounded harnesses; every one is an assertion or safety check over symbolic inputs (all counted as non-trivial)',
-    'not_covered': ['signing / embedding (write side) under short writes and faults', 'transient faults (an operation fails once and later ones succeed)', 'formats without a fixture in the native part'],
+    'not_covered': ['short writes and faults of the DESTINATION stream while signing', 'transient faults while reading', 'formats without a fixture in the native part'],
 }
 
 PROPS['C23'] = {
@@ -278,7 +281,7 @@ PROPS['C10'] = {
                            ('sdk/src/jumbf/boxes.rs', 'read_header'), ('sdk/src/jumbf/boxes.rs', 'read_super_box_impl')]),
               B('native:forged_size_fields', 'sdk', [{'name': 'c10_forged_size_fields_no_panic_no_huge_allocation', 'tier': 'quick'}],
                 functions=[('sdk/src/asset_handlers/riff_io.rs', 'read_cai', r'impl CAIReader for RiffIO \{')],
-                bounds='1561 forged files < 200 bytes of 10 container formats, size fields from 8 extreme values; own hint + every 5th with a broken signature under 13 hints; 8 MiB per-allocation limit (tracking global allocator)')],
+                bounds='1999 forged files < 200 bytes of 10 container formats (JPEG also with one APP11 / APP1 / COM segment of every content length 0..=72), size fields from 8 extreme values; own hint + every 5th with a broken signature under 13 hints; 8 MiB per-allocation limit (tracking global allocator)')],
     'trusted_base': TB_KANI,
     'rule': 'proof obligation = CBMC check of a complete harness',
     'not_covered': ['every format parser', 'stack depth', 'running time', 'CBOR / COSE / X.509 / brotli / XML decoders'],
@@ -294,12 +297,12 @@ PROPS['C04'] = {
     'parts': [K('kani:validation_state', 'sdk', [H('c04_state_matches_spec_active_only', 'bounded', '<= 2 success and <= 2 failure codes from a 7-code universe, active manifest optional'),
                                                  H('c04_state_matches_spec_with_delta', 'bounded', '3 symbolic success codes, optional active failure, optional ingredient delta with optional failure')],
                 kind='bounded', timeout=2400, unwindset=['memcmp.0:41'], functions=[('sdk/src/validation_results.rs', 'validation_state')]),
-              B('native:validation_state', 'sdk', [{'name': 'c04_tolerated_code_classes', 'tier': 'quick'}, {'name': 'c04_state_matches_spec_all_small_results', 'tier': 'quick'}],
-                functions=[('sdk/src/validation_results.rs', 'is_tolerated_manifest_failure_code'), ('sdk/src/validation_results.rs', 'validation_state')],
-                bounds='all subsets of 3 success codes x every sequence of <= 3 failures over 5 codes x up to 2 ingredient deltas (194128 results); tolerated-code classifier on 11571 strings')],
+              B('native:validation_state', 'sdk', [{'name': 'c04_tolerated_code_classes', 'tier': 'quick'}, {'name': 'c04_state_matches_spec_all_small_results', 'tier': 'quick'}, {'name': 'c04_legacy_status_list_fallback', 'tier': 'quick'}],
+                functions=[('sdk/src/validation_results.rs', 'is_tolerated_manifest_failure_code'), ('sdk/src/validation_results.rs', 'validation_state'), ('sdk/src/reader.rs', 'validation_state')],
+                bounds='all subsets of 3 success codes x every sequence of <= 3 failures over 5 codes x up to 2 ingredient deltas (194128 results); tolerated-code classifier on 11571 strings; legacy fallback: every list of <= 3 entries over 6 codes x 2 constructions x verify_trust on/off')],
     'trusted_base': TB_KANI,
     'rule': 'evaluations = CBMC checks decided in bounded harnesses over symbolic code selections',
-    'not_covered': ['Reader::validation_state fallback for legacy results', 'how status codes are produced (validators)'],
+    'not_covered': ['how status codes are produced (validators)'],
 }
 
 
